@@ -497,7 +497,10 @@ def series_changed_through_alias(index, rel, clsname, lanes=("kcals", "fat", "pr
         for st in walk_no_nested(fn):
             if isinstance(st, ast.Assign) and len(st.targets) == 1 and isinstance(st.targets[0], ast.Name):
                 v = st.value
-                if isinstance(v, ast.Attribute) and v.attr in lanes and isinstance(v.value, ast.Subscript):
+                # <table>[key].<lane>, or getattr(<object>, name).<lane>: the stored series itself
+                held = isinstance(v, ast.Attribute) and v.attr in lanes and (isinstance(v.value, ast.Subscript) or (
+                    isinstance(v.value, ast.Call) and isinstance(v.value.func, ast.Name) and v.value.func.id == "getattr"))
+                if held:
                     alias.setdefault(st.targets[0].id, []).append(st)
         if not alias:
             continue
